@@ -1,7 +1,7 @@
 """psv.props — which rules decide which property."""
 from . import core
 from .report import Check
-from .rules import cw, ed, mt, ts, vg, pm, ax, kb, dp, sg, uw, sm, fs
+from .rules import cw, ed, mt, ts, vg, pm, ax, kb, dp, sg, uw, sm, fs, tc
 from . import selftest
 
 
@@ -17,6 +17,7 @@ def c18(tier):
     P = core.load(tier=tier, extra_units=selftest.UNITS)
     selftest.run(P, C, ('cw1',))
     cw.run(P, C)
+    C.extra["fitter_returns_checked"] = tc.run(P, C)
     C.extra["units"] = sorted(P.units.keys())
     C.extra["functions_analysed"] = len(P.functions)
     return C.finish()
